@@ -45,6 +45,16 @@ def _single_arr(fw, val):
     return None, str(why)[:120]
 
 
+def _parents(facts, nb):
+    out = []
+    cur = nb
+    while cur is not None and cur.get("kind") == "Closure" and cur.get("parent"):
+        cur = facts.body(cur["parent"])
+        if cur is not None:
+            out.append(cur)
+    return out
+
+
 def _same_safe(x, y):
     try:
         return same(x, y)
@@ -125,6 +135,7 @@ def r35_pointwise_definitions(facts):
         where = "%s:%d" % (F.rel(b["file"]), b["sp"][0])
         inst = "pointwise:%s" % nm
         fw = _forward(facts, b, uninterp=False)
+        fw.ev.divisors = []
         try:
             val, names, n_arr = fw.ctor(b)
             got, why = _single_arr(fw, val)
@@ -136,6 +147,32 @@ def r35_pointwise_definitions(facts):
         params = [p["pat"].get("name") for p in facts.params(b) if p.get("pat") and p["ty"] == fl]
         want = spec_unary(fw.alg, nm, params)
         n += 1
+        # equal as formulas, but computed through a negative power of (a division by) the operand that the documented function does not have:
+        # 0/0 or 0 * inf (NaN) where the operand element is 0 while the function is finite there
+        sing = None
+        try:
+            from .deriv_rules import _introduced_singularity
+            if not isinstance(want, PW) and not isinstance(got, PW) and same(got, want):
+                sing = _introduced_singularity(list(fw.ev.divisors), want)
+        except Unsupported:
+            sing = None
+        pdiv = getattr(fw.ev, "param_divisors", [])
+        if not sing and pdiv:
+            try:
+                if not isinstance(want, PW) and not isinstance(got, PW) and same(got, want):
+                    for base_, pl_ in pdiv:
+                        s_ = base_.n.single() if base_.d == Poly.const(1) else None
+                        if s_ and len(s_[1]) == 1 and s_[1][0][0] == "a0" and want.d == Poly.const(1):
+                            # exponents of a0 in the documented function: none with a negative constant part
+                            neg_in_want = any(a_ == "a0" and dict(e_).get("", 0) < 0 for m_, _c in want.n.t.items() for a_, e_ in m_)
+                            if not neg_in_want:
+                                sing = "a0 (raised to `%s`, which is negative for parameter values the function accepts)" % " + ".join("%s%s" % (v_, ("*" + k_) if k_ else "") for k_, v_ in pl_)
+            except Unsupported:
+                pass
+        if sing:
+            c.bad(inst, where, "%s(a0) is documented as %r and the code computes the same formula, but through a negative power of (a division by) `%s` that the function does not have: "
+                  "NaN where that element is 0 (for the parameter values for which the function is finite there)" % (nm, want, sing))
+            continue
         _cmp(c, inst, where, got, want, "%s(a0)" % nm)
         # keeps the dimensions: the result is built from self's own dimension vector
         from .shape_rules import _dims_term, _lets
@@ -228,6 +265,63 @@ def r35_pointwise_definitions(facts):
                       % (kv.split("#")[0], "; ".join("%s is %s" % (show(cn_)[:50], t_) for cn_, t_ in facts_) or "unconditionally"))
         if n_id == 0:
             c.ok("sum:identity", where, "sum never returns its operand itself (k = 0 goes through the general path)", nontrivial=False)
+        # ... and the reduction kernel adds its slice up: the one element it writes is the SUM of the input slice, nothing else
+        from .facts import is_sliced_closure, is_backward_closure
+        kernels = [nb for nb in facts.nested(b) if nb is not b and is_sliced_closure(nb, facts) and not any(is_backward_closure(a_) for a_ in _parents(facts, nb))]
+        for nb in kernels[:1]:
+            kps = [p for p in facts.params(nb) if p.get("pat")]
+            outv = kps[0]["pat"].get("v") if kps and kps[0]["pat"].get("k") == "Binding" else None
+            inv = kps[1]["pat"].get("v") if len(kps) > 1 and kps[1]["pat"].get("k") == "Binding" else None
+            stores = [x for x in walk(facts.root(nb)) if x.get("k") in ("Assign", "AssignOp") and any(y.get("k") in ("VarRef", "UpvarRef") and y["v"] == outv for y in walk(x["l"]))]
+            kinst, kwhere = "sum:kernel", "%s:%d" % (F.rel(nb["file"]), nb["sp"][0])
+            if len(stores) != 1 or stores[0]["k"] != "Assign":
+                c.unk(kinst, kwhere, "the reduction kernel of sum does not consist of one plain store into its output slice")
+                continue
+            rhs = strip(stores[0]["r"])
+            lets_ = {st["pat"]["v"]: st["init"] for x_ in walk(facts.root(nb)) if x_.get("k") == "Block" for st in x_["stmts"]
+                     if st["s"] == "let" and st["pat"].get("k") == "Binding" and st.get("init") is not None}
+            hops_ = 0
+            while isinstance(rhs, dict) and rhs.get("k") == "VarRef" and rhs["v"] in lets_ and hops_ < 3:
+                rhs = strip(lets_[rhs["v"]])
+                hops_ += 1
+            verdict = None
+            if isinstance(rhs, dict) and rhs.get("k") == "Call":
+                cal_ = callee(rhs) or ""
+                src_ok = any(y.get("k") in ("VarRef", "UpvarRef") and y["v"] == inv for y in walk(rhs["args"][0])) if rhs.get("args") else False
+                adaptors = {(callee(y) or "").rsplit("::", 1)[-1] for y in walk(rhs["args"][0]) if y.get("k") == "Call" and (callee(y) or "").startswith("core::iter::")} if rhs.get("args") else set()
+                plain = adaptors <= {"copied", "cloned", "into_iter", "by_ref", "rev"}
+                if cal_ == "core::iter::traits::iterator::Iterator::sum" and src_ok and plain:
+                    verdict = ("ok", "the kernel writes `arrays[0].iter().sum()`")
+                elif cal_ == "core::iter::traits::iterator::Iterator::fold" and src_ok and plain and len(rhs["args"]) == 3:
+                    init_ok = lit_value_(rhs["args"][1]) == 0
+                    clo = strip(rhs["args"][2])
+                    body_ok = None
+                    if clo.get("k") == "Closure":
+                        cb_ = facts.body(clo["closure"])
+                        cps = [v for p_ in facts.params(cb_) if p_.get("pat") for v, _, _, _ in F.pat_bindings(p_["pat"])] if cb_ else []
+                        tl = strip(facts.root(cb_)) if cb_ else None
+                        while isinstance(tl, dict) and tl.get("k") == "Block" and not tl["stmts"] and tl.get("e") is not None:
+                            tl = strip(tl["e"])
+                        if isinstance(tl, dict) and len(cps) == 2:
+                            sides = None
+                            if tl.get("k") == "Binary" and tl.get("op") == "Add":
+                                sides = [tl["l"], tl["r"]]
+                            elif tl.get("k") == "Call" and callee(tl) == "core::ops::arith::Add::add" and len(tl["args"]) == 2:
+                                sides = tl["args"]
+                            body_ok = sides is not None and sorted(F.var_of(peel(x_)) or "" for x_ in sides) == sorted(cps) and all(peel(x_).get("k") in ("VarRef", "UpvarRef") for x_ in sides)
+                    elif clo.get("k") == "FnItem" and ((clo.get("fn") or {}).get("path") or "") == "core::ops::arith::Add::add":
+                        body_ok = True
+                    if init_ok and body_ok:
+                        verdict = ("ok", "the kernel folds its slice with `+` from 0")
+                    elif body_ok is False or not init_ok:
+                        verdict = ("bad", "the reduction kernel of sum folds its slice with `%s` from `%s`: the element it writes is not the sum of the slice (it agrees with the sum only for "
+                                          "some inputs, e.g. non-negative ones)" % (show(clo)[:40] if clo.get("k") != "Closure" else show(tl)[:50], show(rhs["args"][1])[:12]))
+            if verdict is None:
+                c.unk(kinst, kwhere, "the reduction kernel of sum writes `%s`, a form this rule does not read" % show(rhs)[:60])
+            elif verdict[0] == "ok":
+                c.ok(kinst, kwhere, verdict[1])
+            else:
+                c.bad(kinst, kwhere, verdict[1])
     # ---- reshape keeps the values in row-major order (shares / copies the flat buffer unchanged)
     for b in _find_fn(facts, "reshape"):
         where = "%s:%d" % (F.rel(b["file"]), b["sp"][0])
@@ -319,7 +413,7 @@ def r34_documented_formulas(facts):
         else:
             want = (-tgt) * fw.alg.ln(out) / fw.alg.atom("dim0[%r]" % out)
         try:
-            val = fw.ev.ev(facts.root(cb), env)
+            val = fw.ev.ev(_root_without_returns(facts, cb), env)
             alts_ = fw.ev.alts(val)
             got, why = _single_arr(fw, val)
         except (Abstain, Unsupported, RecursionError) as ex:
@@ -575,6 +669,26 @@ def r34_documented_formulas(facts):
                         "on the same forward panic instead of returning its loss)" % (p_["ctx"], rootdef))
     if mf:
         c.floor("writes of Model.output", n_w, 1)
+    # forward records its result on EVERY path: an early return (a model of one layer, an input seen before) hands out a result that
+    # backward will not find (it differentiates the output stored by an earlier forward, or panics)
+    for b in mf:
+        blocks = [x for x in walk(facts.root(b)) if x.get("k") == "Block"]
+        for rn in walk(facts.root(b)):
+            if rn.get("k") == "Return" and rn.get("e") is not None:
+                stored = False
+                for blk in blocks:
+                    stmts_ = blk["stmts"]
+                    for i_, st in enumerate(stmts_):
+                        e_ = st.get("e") if st["s"] == "expr" else st.get("init")
+                        if e_ is not None and any(y is rn for y in walk(e_)) or (blk.get("e") is not None and i_ == len(stmts_) - 1 and any(y is rn for y in walk(blk["e"]))):
+                            for prev in stmts_[:i_ + (1 if not (e_ is not None and any(y is rn for y in walk(e_))) else 0)]:
+                                pe_ = prev.get("e") if prev["s"] == "expr" else prev.get("init")
+                                if pe_ is not None and any(y.get("k") == "Assign" and any(z.get("k") == "Field" and z.get("name") == "output" for z in walk(y["l"])) for y in walk(pe_)):
+                                    stored = True
+                if stored:
+                    continue
+                c.bad("model:forward#early-return", F.loc(b, rn), "Model::forward returns early (`%s`) without storing its result as the model's output: the next backward differentiates "
+                      "another output, or none" % show(rn["e"])[:60])
     for b in mb:
         where = "%s:%d" % (F.rel(b["file"]), b["sp"][0])
         fw = _forward(facts, b)
